@@ -72,6 +72,10 @@ CHECKS = {
    text="Bounded exhaustive exploration on the implementation: scenario call trees with transfers of 0 / 1 wei / more than the balance to child frames, precompiles, code-less accounts, newly created contracts and the calling contract itself, frames that later fail, 1-2 invocations, join-point failures; per account and call index the recorded balance journal must equal [sender before, recipient before, sender after, recipient after] (restricted to the account, immediate repeats collapsed) as computed by the reference interpreter, and no other entry may exist.",
    tech="stateless exhaustive enumeration of scenario trees x fault vectors, executed on the real EVM + real djpm.runAspect with a scripted stub runner; comparison with a reference interpreter of the scenario language",
    note=""),
+ "C19": dict(cat="model_checking", ref="DESIGN.md §4 C19",
+   text="Complete enumeration on the implementation: every sentence of the well-nested event-stream grammar (tx start/end, start/end, enter/exit of 5 frame kinds with 3 results, 0..3 Aspect executions per join point with 3 results and 0..2 calls issued from inside each, tx-level join points) within a frame budget and nesting <= 3 is fed directly to callTracer and flatCallTracer under all 8 configurations; the result must parse and equal the tree the stream denotes (every call once under its issuer, every Aspect execution with its own gas used, output and error; flat: frame count, subtraces == emitted children, distinct prefix-closed trace addresses). Conformance: depth-3 scenario chains run on the real EVM with each tracer attached behind a recording tee must emit sentences of that grammar and satisfy the same oracle.",
+   tech="exhaustive enumeration of event-stream histories up to a bound executed on the real tracers, compared with a stack-machine reference model; grammar validated against streams emitted by the real EVM + djpm.runAspect",
+   note="Under onlyTopCall only the top frame and its own Aspect executions are judged."),
 }
 
 NOT_YET = {}
